@@ -233,14 +233,12 @@ def register_check(drv, cid, circ, inputs, outs, cap, stats, src=None, dedup=Non
         problems.append("max_reg_count %d < highest register + 1 = %d" % (rc.max_reg, hi + 1))
     if rc.max_reg > wires:
         problems.append("max_reg_count %d exceeds the number of wires %d" % (rc.max_reg, wires))
-    # input instructions first, in party order
-    k = 0
-    for p, n in enumerate(circ.inputs):
-        for i in range(n):
-            inst = rc.insts[k] if k < len(rc.insts) else None
-            if inst is None or inst[0] != "I" or inst[1] != k or inst[2] != p or inst[3] != i:
-                problems.append("instruction %d is %s, expected Input{party %d, input %d} into register %d" % (k, inst, p, i, k))
-            k += 1
+    # "loads every party's inputs in order": the Input instructions, in program order, are exactly the (party, index)
+    # pairs in ascending order (the registers they load into are the allocator's business)
+    want_in = [(p, i) for p, n in enumerate(circ.inputs) for i in range(n)]
+    got_in = [(inst[2], inst[3]) for inst in rc.insts if inst[0] == "I"]
+    if got_in != want_in:
+        problems.append("Input instructions load %s..., expected every party's inputs in order" % (got_in[:12],))
     outs_r, undefined = enc.encode_reg(rc, inputs)
     if undefined:
         problems.append("registers read before being written: %s" % undefined[:5])
